@@ -569,8 +569,12 @@ class Fxp():
             # max raw value (integer) estimation
             # n_int = max( np.ceil(np.log2(np.max(np.abs( val*(1 << n_frac) + 0.5 )))).astype(int_dtype) - n_frac, 0)
             
-            val_max = int(np.max(val)*(1 << n_frac))
-            val_min = int(np.min(val)*(1 << n_frac))
+            # plain Python numbers: a NumPy scalar of a narrow dtype wraps around (or overflows) when it is scaled
+            val_max, val_min = np.max(val), np.min(val)
+            if isinstance(val_max, np.generic):
+                val_max, val_min = val_max.item(), val_min.item()
+            val_max = int(val_max*(1 << n_frac))
+            val_min = int(val_min*(1 << n_frac))
             n_int = 0
             while n_int < n_word_max - sign:
                 msb_max = (val_max >> n_int) + (1 if val_max < 0 else 0)
